@@ -84,7 +84,7 @@ pub fn check_query(c: &QueryCase) -> CaseResult {
             if s.id == cm.id {
                 continue;
             }
-            if c.only_baked && s.attrs.status() != Ok("ready") {
+            if c.only_baked && s.status() != Ok("ready") {
                 continue;
             }
             match cm.distances(s, c.class) {
